@@ -1,1 +1,56 @@
-//! Hooks for property C15 (empty unless needed).
+//! Hooks for property C15 (also used by C11): the TCP connect seam of relay dialing and an entry
+//! point to the private `dial_happy_eyeballs`.
+//!
+//! `client/tls.rs` shadows `TcpStream` by [`VerifTcpStream`] inside the per-attempt future, so the
+//! unchanged line `TcpStream::connect(addr)` asks the connector installed on the current thread
+//! (or process-wide) for the stream. Without a connector the real `TcpStream::connect` runs.
+use std::{cell::RefCell, future::Future, io, net::SocketAddr, pin::Pin, sync::Arc, sync::Mutex};
+
+use iroh_dns::dns::DnsResolver;
+use tokio::net::TcpStream;
+use url::Url;
+
+pub use crate::client::DialError;
+
+/// A harness connector: decides, per attempted address, when and how the attempt ends.
+pub type Connector =
+    Arc<dyn Fn(SocketAddr) -> Pin<Box<dyn Future<Output = io::Result<TcpStream>> + Send>> + Send + Sync>;
+
+thread_local! {
+    static LOCAL: RefCell<Option<Connector>> = const { RefCell::new(None) };
+}
+static GLOBAL: Mutex<Option<Connector>> = Mutex::new(None);
+
+/// Installs (or removes) the connector used by dials running on the current thread.
+pub fn set_thread_connector(c: Option<Connector>) {
+    LOCAL.with(|l| *l.borrow_mut() = c);
+}
+
+/// Installs (or removes) the process-wide connector (used when no thread connector is set).
+pub fn set_global_connector(c: Option<Connector>) {
+    *GLOBAL.lock().unwrap() = c;
+}
+
+/// Stand-in for `tokio::net::TcpStream` at the connect call of `dial_happy_eyeballs`.
+pub struct VerifTcpStream;
+
+impl VerifTcpStream {
+    pub async fn connect(addr: SocketAddr) -> io::Result<TcpStream> {
+        let c = LOCAL
+            .with(|l| l.borrow().clone())
+            .or_else(|| GLOBAL.lock().unwrap().clone());
+        match c {
+            Some(c) => c(addr).await,
+            None => TcpStream::connect(addr).await,
+        }
+    }
+}
+
+/// The real (private) `dial_happy_eyeballs`.
+pub async fn dial_happy_eyeballs(
+    dns_resolver: &DnsResolver,
+    url: &Url,
+    prefer_ipv6: bool,
+) -> Result<TcpStream, DialError> {
+    crate::client::verif_dial_happy_eyeballs(dns_resolver, url, prefer_ipv6).await
+}
